@@ -76,11 +76,13 @@ func (x *Exec) mapUpdate(fr *Frame, st *State, i *ssa.MapUpdate) {
 	k := x.term(x.val(fr, i.Key))
 	v := x.term(x.val(fr, i.Value))
 	x.check(st, "no-panic", x.oblName(fr, "nil-map", i.Pos()), Not(Eq(m, IntConst(0))), fnProps(fr), "assignment to entry in nil map", x.pos(i.Pos()))
+	x.freshWrite(st, m, "map update")
 	dom, val := x.mapHeaps(st, mt)
 	x.setMapHeaps(st, mt, Store(dom, m, Store(Select(dom, m), k, TTrue)), Store(val, m, Store(Select(val, m), k, v)))
 }
 
 func (x *Exec) mapDelete(st *State, mt *types.Map, m, k Term) {
+	x.freshWrite(st, m, "map delete")
 	dom, val := x.mapHeaps(st, mt)
 	x.setMapHeaps(st, mt, Ite(Eq(m, IntConst(0)), dom, Store(dom, m, Store(Select(dom, m), k, TFalse))), val)
 }
